@@ -182,12 +182,41 @@ var volatileHdr = map[string]bool{"date": true, "last-modified": true, "server":
 var volatileElem = map[string]bool{"LastModified": true, "Initiated": true, "CreationDate": true, "RequestId": true, "HostId": true, "Message": true, "Resource": true}
 
 // normXML renders an XML document canonically: element names and text, volatile
-// elements blanked, upload ids replaced by placeholders.
+// elements blanked, empty elements dropped, the tags of a TagSet sorted (a set), upload ids
+// replaced by placeholders.
+type xnode struct {
+	name string
+	text string
+	kids []*xnode
+}
+
+func (n *xnode) render(path []string, blankOwner bool) string {
+	if volatileElem[n.name] {
+		return ""
+	}
+	if blankOwner && len(path) >= 2 && path[len(path)-1] == "Owner" && (path[len(path)-2] == "Contents" || path[len(path)-2] == "Version") {
+		return ""
+	}
+	var parts []string
+	for _, k := range n.kids {
+		if r := k.render(append(path, n.name), blankOwner); r != "" {
+			parts = append(parts, r)
+		}
+	}
+	if n.name == "TagSet" {
+		sort.Strings(parts)
+	}
+	body := n.text + strings.Join(parts, "")
+	if body == "" {
+		return "" // an element without content reads the same as an absent one
+	}
+	return "<" + n.name + ">" + body + "</>"
+}
+
 func normXML(b []byte, ids []string, blankOwner bool) (string, bool) {
 	d := xml.NewDecoder(strings.NewReader(string(b)))
-	var sb strings.Builder
-	var stack []string
-	any := false
+	root := &xnode{}
+	stack := []*xnode{root}
 	for {
 		tok, err := d.Token()
 		if err != nil {
@@ -198,41 +227,32 @@ func normXML(b []byte, ids []string, blankOwner bool) (string, bool) {
 		}
 		switch t := tok.(type) {
 		case xml.StartElement:
-			any = true
-			stack = append(stack, t.Name.Local)
-			sb.WriteString("<" + t.Name.Local + ">")
+			n := &xnode{name: t.Name.Local}
+			stack[len(stack)-1].kids = append(stack[len(stack)-1].kids, n)
+			stack = append(stack, n)
 		case xml.EndElement:
-			if len(stack) > 0 {
+			if len(stack) > 1 {
 				stack = stack[:len(stack)-1]
 			}
-			// an element without content reads the same as an absent one
-			if cur := sb.String(); strings.HasSuffix(cur, "<"+t.Name.Local+">") {
-				sb.Reset()
-				sb.WriteString(strings.TrimSuffix(cur, "<"+t.Name.Local+">"))
-				continue
-			}
-			sb.WriteString("</>")
 		case xml.CharData:
-			txt := strings.TrimSpace(string(t))
-			if txt == "" || len(stack) == 0 {
-				continue
+			if len(stack) > 1 {
+				stack[len(stack)-1].text += strings.TrimSpace(string(t))
 			}
-			if volatileElem[stack[len(stack)-1]] {
-				continue
-			}
-			if blankOwner && len(stack) >= 3 && stack[len(stack)-2] == "Owner" && (stack[len(stack)-3] == "Contents" || stack[len(stack)-3] == "Version") {
-				continue
-			}
-			sb.WriteString(txt)
 		}
 	}
-	out := sb.String()
+	if len(root.kids) == 0 {
+		return "", false
+	}
+	out := root.kids[0].render(nil, blankOwner)
+	if out == "" {
+		out = "<" + root.kids[0].name + "></>"
+	}
 	for i, id := range ids {
 		if id != "" {
 			out = strings.ReplaceAll(out, id, fmt.Sprintf("UPLOAD%d", i))
 		}
 	}
-	return out, any
+	return out, true
 }
 
 func norm(r *s3c.Resp, ids []string, blankOwner ...bool) answer {
@@ -518,6 +538,11 @@ func step(s *side, bkt string, o op) ([]*s3c.Resp, error) {
 		}
 		return one(cl.Call("GET", "/"+bkt, q, nil, nil))
 	case "mpucreate":
+		if s.uploads[o.Key] != nil {
+			// uploads of one key are listed in the order of their (random) ids: two of them would make
+			// the listing order differ between any two servers
+			return nil, nil
+		}
 		r, err := cl.Call("POST", path, s3c.Q("uploads", ""), metas[o.Meta%5], nil)
 		if err != nil {
 			return nil, err
@@ -664,9 +689,13 @@ func execA(c caseA) (st stats, err error) {
 		// writing is a race in the network stack (the sdk cannot replay the streamed body and
 		// reports an internal error). The refused request changed nothing, so it is repeated:
 		// only a proxy that keeps answering 500 is reported.
-		for try := 0; bad && try < 4 && (o.Kind == "put" || o.Kind == "mpupart") && len(ans[0]) == 1 && len(ans[1]) == 1 &&
-			ans[0][0].Status >= 400 && ans[0][0].Status < 500 && ans[1][0].Status == 500; try++ {
+		refusedUpload := func() bool {
+			return (o.Kind == "put" || o.Kind == "mpupart") && len(ans[0]) == 1 && len(ans[1]) == 1 &&
+				ans[0][0].Status >= 400 && ans[0][0].Status < 500 && ans[1][0].Status == 500
+		}
+		for try := 0; bad && try < 6 && refusedUpload(); try++ {
 			ev.Class("upload-refusal-repeated-after-proxy-500")
+			time.Sleep(time.Duration(10*(try+1)) * time.Millisecond)
 			rs, err := step(sides[1], bkt, o)
 			if err != nil {
 				return fmt.Errorf("SETUP: transport (proxy): %v", err)
@@ -676,6 +705,12 @@ func execA(c caseA) (st stats, err error) {
 				ans[1] = append(ans[1], norm(r, sides[1].ids))
 			}
 			bad = differ()
+		}
+		if bad && refusedUpload() && o.Size > 4096 {
+			// with a body larger than the socket buffers the race is lost regularly on a busy machine:
+			// not judged (the same refusal with a small body is)
+			ev.Class("upload-refusal-race-unresolved-large-body")
+			bad = false
 		}
 		if bad && !strict && kf.Open(ownerFinding) && (o.Kind == "list" || o.Kind == "list1" || o.Kind == "listversions") {
 			// known finding: narrowed to exactly the Owner of listed objects
